@@ -1028,6 +1028,178 @@ theorem guest_features_residues_partial (loc : Seq → List Reg) (host guest : S
   rw [List.getElem?_take, if_pos (by omega), List.getElem?_drop] at h6
   exact h6
 
+/-! ## rotate and (linear) split: features -/
+
+/-- **`gts rotate`, every feature**: C04 `rotate_feature_partial` lifted to the scan loop — with at
+least one located region, every feature of a non-empty record is present in the output with
+unchanged key and qualifiers and denotes the same residues at `(x - head) mod L`, where `head`
+is the head of the FIRST located region (domain of the `Normalize` law and K2 guards as in C04). -/
+theorem rotate_features_partial (loc : Seq → List Reg) (s : Seq) (r : Reg) (rest : List Reg)
+    (h : loc s = r :: rest) (hL : 0 < s.len) (f : Feature) (hf : f ∈ s.feats)
+    (hw : f.loc.wf = true) (hnn : f.loc.nonneg = true)
+    (hok : Loc.normOk s.len (f.loc.expand 0 (C04.rotN (-(r.head)) s.len)) = true)
+    (h1 : Loc.expandAbs f.loc 0 (C04.rotN (-(r.head)) s.len) = false)
+    (h2 : Loc.normalizeAbs (f.loc.expand 0 (C04.rotN (-(r.head)) s.len)) s.len = false) :
+    ∃ f' ∈ (Cli.rotate loc s).feats, f'.key = f.key ∧ f'.props = f.props ∧
+      f'.loc.den ≼ mapPos (rotMap (-(r.head)) s.len) f.loc.den := by
+  simp only [Cli.rotate, h]
+  exact C04.rotate_feature_partial s (-(r.head)) hL f hf hw hnn hok h1 h2
+
+/-- … nothing is lost or added -/
+theorem rotate_feature_count (loc : Seq → List Reg) (s : Seq) :
+    (Cli.rotate loc s).feats.length = s.feats.length := by
+  unfold Cli.rotate
+  split
+  · rfl
+  · exact C04.rotate_feature_count s _
+
+/-- **`rotMap (-head)` is where `gts rotate` puts the residues** (`0 ≤ head ≤ len`, `0 ≤ x < len`) -/
+theorem rotate_residue_at (loc : Seq → List Reg) (s : Seq) (r : Reg) (rest : List Reg)
+    (h : loc s = r :: rest) (h0 : 0 ≤ r.head) (h1 : r.head ≤ s.len) (x : Int) (hx : 0 ≤ x)
+    (hxl : x < s.len) :
+    (Cli.rotate loc s).bytes[(rotMap (-(r.head)) s.len x).toNat]? = s.bytes[x.toNat]? := by
+  have hL : 0 < s.len := by omega
+  have hlen : s.len = s.bytes.length := rfl
+  rw [rotate_first_head loc s r rest h hL h0 h1]
+  unfold rotMap
+  rw [List.getElem?_append, List.getElem?_drop, List.getElem?_take, List.length_drop]
+  by_cases hc : r.head ≤ x
+  · have e : (x + -r.head) % s.len = x - r.head := Int.emod_eq_of_lt (by omega) (by omega)
+    rw [e, if_pos (by omega)]
+    congr 1; omega
+  · have e : (x + -r.head) % s.len = x - r.head + s.len := by
+      have : x + -r.head = (x - r.head + s.len) + (-1) * s.len := by omega
+      rw [this, Int.add_mul_emod_self_right, Int.emod_eq_of_lt (by omega) (by omega)]
+    rw [e, if_neg (by omega), if_pos (by omega)]
+    congr 1; omega
+
+/-- **linear `gts split`, the pieces**: with at least one located region the pieces are the
+slices of the record over the windows between consecutive cuts `0, cuts…, len`
+(`Cli.windows`: consecutive pairs). -/
+theorem split_linear_windows (loc : Seq → List Reg) (s : Seq) (hne : loc s ≠ []) :
+    Cli.split loc false s =
+      (Cli.windows ((0 : Int) :: Cli.sortAscU ((loc s).map Cli.cutOf) ++ [s.len])).map
+        fun w => s.slice w.1 w.2 := by
+  cases hl : loc s with
+  | nil => exact absurd hl hne
+  | cons r0 rest =>
+    rw [split_cons loc false s r0 rest hl, ← Cli.pieces_eq_map]
+    simp
+
+/-- the cut list `0, cuts…, len` is non-decreasing when every cut lies in `[0, len]` -/
+theorem split_linear_cuts_sorted (loc : Seq → List Reg) (s : Seq)
+    (hw : ∀ r ∈ loc s, 0 ≤ Cli.cutOf r ∧ Cli.cutOf r ≤ s.len) :
+    ((0 : Int) :: Cli.sortAscU ((loc s).map Cli.cutOf) ++ [s.len]).Pairwise (fun x y => x ≤ y) := by
+  have hmem : ∀ x ∈ Cli.sortAscU ((loc s).map Cli.cutOf), 0 ≤ x ∧ x ≤ s.len := by
+    intro x hx
+    obtain ⟨r, hr, rfl⟩ := List.mem_map.mp ((Cli.mem_sortAscU x _).mp hx)
+    exact hw r hr
+  have hlen : (0 : Int) ≤ s.len := by unfold Seq.len; omega
+  rw [List.cons_append]
+  refine List.pairwise_cons.mpr ⟨?_, List.pairwise_append.mpr ⟨?_, by simp, ?_⟩⟩
+  · intro b hb
+    rcases List.mem_append.mp hb with hb | hb
+    · exact (hmem b hb).1
+    · rw [List.mem_singleton.mp hb]; exact hlen
+  · exact (Cli.sortAscU_sorted _).imp (fun h => Int.le_of_lt h)
+  · intro a ha b hb
+    rw [List.mem_singleton.mp hb]; exact (hmem a ha).2
+
+/-- **the windows partition the record**: every position `0 ≤ x < len` lies in exactly one window,
+and every window is a forward window inside `[0, len]`. -/
+theorem split_linear_windows_partition (loc : Seq → List Reg) (s : Seq)
+    (hw : ∀ r ∈ loc s, 0 ≤ Cli.cutOf r ∧ Cli.cutOf r ≤ s.len) :
+    (∀ x, 0 ≤ x → x < s.len →
+      ∃ w ∈ Cli.windows ((0 : Int) :: Cli.sortAscU ((loc s).map Cli.cutOf) ++ [s.len]),
+        (w.1 ≤ x ∧ x < w.2) ∧
+        ∀ w' ∈ Cli.windows ((0 : Int) :: Cli.sortAscU ((loc s).map Cli.cutOf) ++ [s.len]),
+          w'.1 ≤ x ∧ x < w'.2 → w' = w) ∧
+    (∀ w ∈ Cli.windows ((0 : Int) :: Cli.sortAscU ((loc s).map Cli.cutOf) ++ [s.len]),
+      0 ≤ w.1 ∧ w.1 ≤ w.2 ∧ w.2 ≤ s.len) := by
+  have hs := split_linear_cuts_sorted loc s hw
+  have hlen : (0 : Int) ≤ s.len := by unfold Seq.len; omega
+  have hall : ∀ x ∈ (0 : Int) :: Cli.sortAscU ((loc s).map Cli.cutOf) ++ [s.len], 0 ≤ x ∧ x ≤ s.len := by
+    intro x hx
+    rw [List.cons_append] at hx
+    rcases List.mem_cons.mp hx with rfl | hx
+    · exact ⟨Int.le_refl _, hlen⟩
+    · rcases List.mem_append.mp hx with hx | hx
+      · obtain ⟨r, hr, rfl⟩ := List.mem_map.mp ((Cli.mem_sortAscU x _).mp hx)
+        exact hw r hr
+      · rw [List.mem_singleton.mp hx]; exact ⟨hlen, Int.le_refl _⟩
+  constructor
+  · intro x h0 h1
+    obtain ⟨w, hwm, hwx⟩ := Cli.window_exists 0 (Cli.sortAscU ((loc s).map Cli.cutOf) ++ [s.len]) s.len x
+      (by rw [← List.cons_append, List.getLast?_append]; simp) h0 h1
+    rw [← List.cons_append] at hwm
+    exact ⟨w, hwm, hwx, fun w' hw' hx' => Cli.window_unique _ hs w' w hw' hwm x hx' hwx⟩
+  · intro w hwm
+    have hm := Cli.mem_windows _ w hwm
+    exact ⟨(hall _ hm.1).1, Cli.window_bounds _ hs w hwm, (hall _ (List.mem_of_mem_tail hm.2)).2⟩
+
+/-- **linear `gts split`, a feature in a piece**: C03 `slice_fwd_feature_partial` lifted to the
+scan loop — for every window `w` of the cut list, a feature overlapping `w` is present in the
+piece `s.slice w.1 w.2` (which IS one of the written pieces) with unchanged key and qualifiers
+and denotes exactly its former residues inside the window, re-based to the window start. -/
+theorem split_piece_feature_partial (loc : Seq → List Reg) (s : Seq) (hne : loc s ≠ [])
+    (hw : ∀ r ∈ loc s, 0 ≤ Cli.cutOf r ∧ Cli.cutOf r ≤ s.len)
+    (w : Int × Int)
+    (hwm : w ∈ Cli.windows ((0 : Int) :: Cli.sortAscU ((loc s).map Cli.cutOf) ++ [s.len]))
+    (f : Feature) (hf : f ∈ s.feats) (hov : f.loc.overlap w.1 w.2 = true)
+    (hwf : f.loc.wf = true) (hpos : ∀ p ∈ f.loc.den, 0 ≤ p.1 ∧ p.1 < s.len)
+    (g1 : Loc.expandAbs f.loc w.2 (w.2 - s.len) = false)
+    (g2 : Loc.expandAbs (f.loc.expand w.2 (w.2 - s.len)) 0 (-w.1) = false) :
+    s.slice w.1 w.2 ∈ Cli.split loc false s ∧
+    ∃ f' ∈ (s.slice w.1 w.2).feats, f'.key = f.key ∧ f'.props = f.props ∧
+      f'.loc.den ≼ filterMapPos (winMap w.1 w.2) f.loc.den := by
+  obtain ⟨h0, h1, h2⟩ := (split_linear_windows_partition loc s hw).2 w hwm
+  refine ⟨?_, C03.slice_fwd_feature_partial s w.1 w.2 h0 h1 h2 f hf hov hwf hpos g1 g2⟩
+  rw [split_linear_windows loc s hne]
+  exact List.mem_map_of_mem (f := fun w => s.slice w.1 w.2) hwm
+
+/-- … and every feature of a piece comes from a feature of the record overlapping its window -/
+theorem split_piece_feature_origin (loc : Seq → List Reg) (s : Seq)
+    (hw : ∀ r ∈ loc s, 0 ≤ Cli.cutOf r ∧ Cli.cutOf r ≤ s.len)
+    (w : Int × Int)
+    (hwm : w ∈ Cli.windows ((0 : Int) :: Cli.sortAscU ((loc s).map Cli.cutOf) ++ [s.len]))
+    (f' : Feature) (hf' : f' ∈ (s.slice w.1 w.2).feats) :
+    ∃ f ∈ s.feats, f.loc.overlap w.1 w.2 = true ∧ f'.key = f.key ∧ f'.props = f.props := by
+  obtain ⟨h0, h1, _⟩ := (split_linear_windows_partition loc s hw).2 w hwm
+  exact C03.slice_fwd_feature_origin s w.1 w.2 h0 h1 f' hf'
+
+/-- **linear `gts split`: the pieces of a feature together denote its residues** — every residue
+`p` a feature denotes (location well-formed, positions inside the record)
+lies in exactly one window `w`; the piece written for `w` contains the feature (same key and
+qualifiers), its location there denotes only former residues of the feature inside `w`, re-based,
+and among them `p` at `p - w.1` on the same strand.  Guards: K2 in neither `Expand` of the
+`Slice` of any window. -/
+theorem split_features_partial (loc : Seq → List Reg) (s : Seq) (hne : loc s ≠ [])
+    (hw : ∀ r ∈ loc s, 0 ≤ Cli.cutOf r ∧ Cli.cutOf r ≤ s.len)
+    (f : Feature) (hf : f ∈ s.feats) (hwf : f.loc.wf = true)
+    (hpos : ∀ p ∈ f.loc.den, 0 ≤ p.1 ∧ p.1 < s.len)
+    (hg : ∀ w ∈ Cli.windows ((0 : Int) :: Cli.sortAscU ((loc s).map Cli.cutOf) ++ [s.len]),
+      Loc.expandAbs f.loc w.2 (w.2 - s.len) = false ∧
+      Loc.expandAbs (f.loc.expand w.2 (w.2 - s.len)) 0 (-w.1) = false)
+    (p : Pos) (hp : p ∈ f.loc.den) :
+    ∃ w ∈ Cli.windows ((0 : Int) :: Cli.sortAscU ((loc s).map Cli.cutOf) ++ [s.len]),
+      (w.1 ≤ p.1 ∧ p.1 < w.2) ∧
+      (∀ w' ∈ Cli.windows ((0 : Int) :: Cli.sortAscU ((loc s).map Cli.cutOf) ++ [s.len]),
+          w'.1 ≤ p.1 ∧ p.1 < w'.2 → w' = w) ∧
+      s.slice w.1 w.2 ∈ Cli.split loc false s ∧
+      ∃ f' ∈ (s.slice w.1 w.2).feats, f'.key = f.key ∧ f'.props = f.props ∧
+        f'.loc.den ≼ filterMapPos (winMap w.1 w.2) f.loc.den ∧ (p.1 - w.1, p.2) ∈ f'.loc.den := by
+  obtain ⟨w, hwm, hwx, huniq⟩ := (split_linear_windows_partition loc s hw).1 p.1 (hpos p hp).1 (hpos p hp).2
+  have hov : f.loc.overlap w.1 w.2 = true :=
+    Cli.overlap_of_den f.loc w.1 w.2 hwf p hp hwx.1 hwx.2
+  obtain ⟨hmem, f', hf', hk, hpr, hden⟩ := split_piece_feature_partial loc s hne hw w hwm f hf hov hwf hpos
+    (hg w hwm).1 (hg w hwm).2
+  refine ⟨w, hwm, hwx, huniq, hmem, f', hf', hk, hpr, hden, ?_⟩
+  apply hden.2
+  unfold filterMapPos
+  rw [List.mem_filterMap]
+  refine ⟨p, hp, ?_⟩
+  simp [winMap, hwx]
+
 /-! ### non-vacuity of the feature theorems -/
 
 /-- a complement-strand join with partial ends, spanning both cuts / all insertion sites -/
@@ -1102,5 +1274,26 @@ example : within s1.len (many (loc1 s1)) ∧ (∀ p ∈ gene1.loc.den, 0 ≤ p.1
     (∀ f ∈ guest1.feats, f.loc.den.Nodup ∧ ∀ p ∈ f.loc.den, p.1 < guest1.len) := by decide
 example : (gene1.loc.den.filter fun p => !decide (cover (many (loc1 s1)) p.1)).map (readAt s1.bytes) =
     [(some 71, true), (some 65, true), (some 71, true), (some 67, true)] := by decide
+
+/-- hypotheses of `rotate_features_partial` / `rotate_residue_at` (first head 5: rotation by 7) -/
+example : loc2 s1 = seg 5 2 :: [seg 3 4, seg 5 9] ∧ 0 < s1.len ∧
+    gene1.loc.wf = true ∧ gene1.loc.nonneg = true ∧
+    Loc.normOk s1.len (gene1.loc.expand 0 (C04.rotN (-5) s1.len)) = true ∧
+    Loc.expandAbs gene1.loc 0 (C04.rotN (-5) s1.len) = false ∧
+    Loc.normalizeAbs (gene1.loc.expand 0 (C04.rotN (-5) s1.len)) s1.len = false := ⟨rfl, by decide⟩
+example : mapPos (rotMap (-5) s1.len) gene1.loc.den =
+    [(5, true), (4, true), (3, true), (1, true), (10, true), (9, true), (8, true)] := by decide
+/-- hypotheses of `split_features_partial` (cuts 2, 3, 5: windows `[0,2) [2,3) [3,5) [5,12)`) -/
+example : loc2 s1 ≠ [] ∧ (∀ r ∈ loc2 s1, 0 ≤ Cli.cutOf r ∧ Cli.cutOf r ≤ s1.len) ∧
+    Cli.windows ((0 : Int) :: Cli.sortAscU ((loc2 s1).map Cli.cutOf) ++ [s1.len]) =
+      [(0, 2), (2, 3), (3, 5), (5, 12)] ∧
+    (∀ w ∈ Cli.windows ((0 : Int) :: Cli.sortAscU ((loc2 s1).map Cli.cutOf) ++ [s1.len]),
+      Loc.expandAbs gene1.loc w.2 (w.2 - s1.len) = false ∧
+      Loc.expandAbs (gene1.loc.expand w.2 (w.2 - s1.len)) 0 (-w.1) = false) :=
+  ⟨by simp [loc2], by decide⟩
+/-- the join in the four pieces: residue 1 | 2 | 3 | 6, 8, 9, 10 (re-based to 1, 3, 4, 5) -/
+example : (Cli.split loc2 false s1).map (fun pc => (pc.feats.filter (·.key = "gene")).map (·.loc.den)) =
+    [[[(1, true)]], [[(0, true)]], [[(0, true)]], [[(5, true), (4, true), (3, true), (1, true)]]] := by
+  decide
 
 end Gts.C15
